@@ -3,6 +3,7 @@
 import json, os
 from props import PROPS
 from manifest_text import CHECK_TEXT, NOT_APPLICABLE
+HOOK = "b37bfee8da0246d1c9dc4a86980fb7412978eb04"
 
 checks = []
 for pid in sorted(CHECK_TEXT):
@@ -24,9 +25,9 @@ manifest = {
     "setup_cmd": "./check --setup",
     "hooks": {
         "guard": "cargo feature `verif` of crate duke (duke/verif)",
-        "enable": "harness/Cargo.toml depends on the /repo crates by path; hooks (when present) are enabled with features = [\"verif\"] on the duke dependency",
+        "enable": "harness/Cargo.toml depends on the /repo crates by path; harness binaries that need the hooks are built with `--features verif` (harness feature forwarding to duke/verif); all other checks build duke with the guard off",
         "baseline_off_cmd": "cd /repo && cargo test --workspace --no-fail-fast --offline",
-        "source_commits": [],
+        "source_commits": [HOOK],
         "add_only": True,
     },
     "engines": [
